@@ -18,8 +18,12 @@ Oracle = the documentation, transcribed into a table:
   ``UndefinedError``; ``Undefined`` is iterable in async environments; undefined objects are hashable; the
   copy / pickle protocols work on undefined objects (dunder names raise ``AttributeError``).
 
-Mode B: selectors (origin of the undefined value, operation x operand) are decoded under tracing, then the real
-code runs natively: once from Python on an undefined produced by the real ``Environment.getattr`` / ``getitem`` /
+Where the documentation is silent the table uses the weakest reading that is consistent with it: ``len`` of a
+non-strict undefined is 0 (it iterates as empty), ``==`` / ``!=`` of a non-strict undefined against a defined value
+are False / True (bool results, mutually consistent, hash-consistent between two undefined values).
+
+Mode B: selectors (origin of the undefined value, operation) are decoded under tracing, then the real code runs
+natively against every operand of the operand table (both operand orders are separate operations): once from Python on an undefined produced by the real ``Environment.getattr`` / ``getitem`` /
 ``undefined`` / ``Context.resolve``, once through compiled templates (sync and async), the undefined value being
 produced by the generated code inside the same template.
 Mode A: ``__getattr__`` of each type over symbolic attribute names.
@@ -53,7 +57,9 @@ OUTSIDE = [
     "undefined values created with a non-default exception class (sandbox SecurityError)",
 ]
 ASSUMPTIONS = [
-    "templates are compiled natively (cached per environment); only decoding of the selectors is symbolic in mode B",
+    "templates are compiled natively (cached per environment); only decoding of the selectors is symbolic in mode B; "
+    "the operand table is looped natively inside each (origin, operation) path",
+    "mode A (__getattr__ over symbolic names) runs with the logger of the logging variants disabled; logging is checked in mode B",
     "the oracle table in this module is a faithful transcription of docs/api.rst, docs/templates.rst, CHANGES.rst and the class docstrings",
 ]
 SUSPECTED_DEFECTS = [
@@ -132,6 +138,14 @@ def setup(param):
     CLS = CLASSES[KIND, LOGV]
     ENV = ENVS[KIND, LOGV, P.get("route") == "atpl"]
     del LOG[:]
+    global NOPS_, KNOWN_
+    route = P.get("route", "py")
+    ops = _ops()
+    NOPS_ = len(ops)
+    KNOWN_ = [i for i, op in enumerate(ops) if _defect(route, KIND, LOGV, op[0], op[1])]
+    # mode A runs Undefined.__getattr__ under tracing: keep the logging machinery (clocks, locks, record objects) out of
+    # the symbolic run; what is logged is checked by the mode B conditions
+    LOGGER.disabled = "maxname" in P
 
 
 # ------------------------------------------------------------------------------------------------ origins
@@ -332,35 +346,21 @@ PY_OPS = _py_ops()
 TPL_OPS = _tpl_ops()
 
 
-def _cases(ops, nops):
-    out = []
-    for i, op in enumerate(ops):
-        if op[2]:
-            for k in range(nops):
-                out.append((i, k))
-        else:
-            out.append((i, None))
-    return out
+def _ops():
+    return PY_OPS if P.get("route", "py") == "py" else TPL_OPS
 
 
-CASES = {}
+def _operand_idx():
+    """Operand indexes of the current bound (OTHER is always part of the operand table)."""
+    return list(range(P.get("nops", len(OPERANDS)) - 1)) + [OTHER]
 
 
-def cases():
-    key = (P.get("route", "py"), P.get("nops", len(OPERANDS)))
-    if key not in CASES:
-        ops = PY_OPS if key[0] == "py" else TPL_OPS
-        nops = key[1]
-        idx = list(range(nops - 1)) + [OTHER]  # OTHER is always part of the operand table
-        cs = []
-        for i, k in _cases(ops, nops):
-            cs.append((i, None if k is None else idx[k]))
-        CASES[key] = cs
-    return CASES[key]
+NOPS_ = 0      # number of operations of the current route (set by setup)
+KNOWN_ = []    # operation indexes excluded from the bound (set by setup)
 
 
 def NCASES():
-    return len(cases())
+    return NOPS_
 
 
 def _excluded(route, kind, log, opname, cat, operand):
@@ -379,11 +379,9 @@ def _defect(route, kind, log, opname, cat):
 
 
 def KNOWN(case):
-    """True for the case indexes excluded from the bound (usable on symbolic ints)."""
-    route = P.get("route", "py")
-    ops = PY_OPS if route == "py" else TPL_OPS
-    for j, (i, k) in enumerate(cases()):
-        if _defect(route, KIND, LOGV, ops[i][0], ops[i][1]) and case == j:
+    """True for the operation indexes excluded from the bound (usable on symbolic ints)."""
+    for j in KNOWN_:
+        if case == j:
             return True
     return False
 
@@ -463,55 +461,62 @@ def _names_in_log(m, oi):
     return (exact if exact is not None else str(name)) in m
 
 
-def _run_py(oi, case):
-    i, k = cases()[case]
+def _run_py(oi, i):
     name, cat, needs, fn, value = PY_OPS[i]
-    if _excluded("py", KIND, LOGV, name, cat, k):
-        return True
-    u = ORIGINS[oi][2](ENV)
-    if type(u) is not CLS:
-        return False
-    o = None
-    if k is not None:
-        o = ENV.undefined(name="o") if k == OTHER else OPERANDS[k]
-    n0 = len(LOG)
-    try:
-        got = ("ok", fn(u, o))
-    except Exception as e:
-        got = ("exc", e)
-    return _judge(cat, KIND, oi, k, got, value, None, n0, result_is=u)
-
-
-def _run_tpl(oi, case):
-    i, k = cases()[case]
-    name, cat, needs, src, how, value, undo = TPL_OPS[i]
-    if _excluded(P.get("route"), KIND, LOGV, name, cat, k):
-        return True
-    t = _template(src.replace("@E", ORIGINS[oi][1]))
-    ctx = _ctx()
-    if k is not None and k != OTHER:
-        ctx["o"] = OPERANDS[k]
-    g = Grab()
-    ctx["rec"] = g
-    n0 = len(LOG)
-    try:
-        if ENV.is_async:
-            text = drive(t.render_async(ctx))
-        else:
-            text = t.render(ctx)
-        if how == "text":
-            got = ("ok", text)
-        elif len(g.vals) == 1 and text == "":
-            got = ("ok", g.vals[0])
-        else:
+    for k in (_operand_idx() if needs else [None]):
+        if _excluded("py", KIND, LOGV, name, cat, k):
+            continue
+        u = ORIGINS[oi][2](ENV)
+        if type(u) is not CLS:
             return False
-    except Exception as e:
-        got = ("exc", e)
-    return _judge(cat, KIND, oi, k, got, value, undo, n0)
+        o = None
+        if k is not None:
+            o = ENV.undefined(name="o") if k == OTHER else OPERANDS[k]
+        n0 = len(LOG)
+        try:
+            got = ("ok", fn(u, o))
+        except Exception as e:
+            got = ("exc", e)
+        if not _judge(cat, KIND, oi, k, got, value, None, n0, result_is=u):
+            return False
+    return True
+
+
+def _run_tpl(oi, i):
+    name, cat, needs, src, how, value, undo = TPL_OPS[i]
+    t = _template(src.replace("@E", ORIGINS[oi][1]))
+    for k in (_operand_idx() if needs else [None]):
+        if _excluded(P.get("route"), KIND, LOGV, name, cat, k):
+            continue
+        ctx = _ctx()
+        if k is not None and k != OTHER:
+            ctx["o"] = OPERANDS[k]
+        g = Grab()
+        ctx["rec"] = g
+        n0 = len(LOG)
+        try:
+            if ENV.is_async:
+                text = drive(t.render_async(ctx))
+            else:
+                text = t.render(ctx)
+            if how == "text":
+                got = ("ok", text)
+            elif len(g.vals) == 1 and text == "":
+                got = ("ok", g.vals[0])
+            else:
+                return False
+        except Exception as e:
+            got = ("exc", e)
+        if not _judge(cat, KIND, oi, k, got, value, undo, n0):
+            return False
+    return True
 
 
 def op_ok(origin: int, case: int) -> bool:
     """
+    Selectors: origin of the undefined value, operation.  Operations with an operand are run against every operand of
+    the table (natively, inside the same path).
+
     pre: 0 <= origin < NORIG() and 0 <= case < NCASES() and not KNOWN(case)
     post: _
     """
@@ -553,7 +558,7 @@ def MAXNAME():
 def conditions(tier, seed):
     th = tier == "thorough"
     to = 300 if th else 60
-    nops = len(OPERANDS) if th else 4
+    nops = len(OPERANDS)  # operands are looped natively inside a path: the whole table in both tiers
     out = []
     for kind in KINDS:
         for log in (False, True):
@@ -561,20 +566,17 @@ def conditions(tier, seed):
             for route in ("py", "tpl", "atpl"):
                 p = {"kind": kind, "log": log, "route": route, "nops": nops}
                 setup(p)
-                n = NCASES()
-                names = [op[0] for op in (PY_OPS if route == "py" else TPL_OPS)]
-                cs = cases()
-
-                def idx(opname, operand=None, names=names, cs=cs):
-                    return cs.index((names.index(opname), operand))
-
-                wit = [[0, idx("neg")], [1, idx("+", 0)], [5, idx("r<", 1)], [6, idx("is-defined" if route != "py" else "test-defined")],
-                       [4, idx("print" if route != "py" else "str")], [2, idx("==", OTHER)], [3, idx("item-k" if route != "py" else "getitem-k")]]
+                names = [op[0] for op in _ops()]
+                idx = names.index
+                wit = [[0, idx("neg")], [1, idx("+")], [5, idx("r<")], [6, idx("is-defined" if route != "py" else "test-defined")],
+                       [4, idx("print" if route != "py" else "str")], [2, idx("==")], [3, idx("item-k" if route != "py" else "getitem-k")],
+                       [7, idx("in" if route != "py" else "contains")]]
                 out.append(Cond(
                     f"ops[{cname},{ {'py': 'python', 'tpl': 'template-sync', 'atpl': 'template-async'}[route] }]", "op_ok",
                     mode="B", param=p, timeout=to, witnesses=wit,
                     bounds=f"undefined class {cname}; origin in {[o[0] for o in ORIGINS[:NORIG()]]}; "
-                           f"{n} (operation, operand) cases: {len(names)} operations, operands {[OPERANDS[i] for i in list(range(nops - 1)) + [OTHER]]}"))
+                           f"{len(names)} operations ({len(KNOWN_)} excluded, see SUSPECTED_DEFECTS), those with an operand against each of "
+                           f"{[OPERANDS[i] for i in _operand_idx()]}"))
             p = {"kind": kind, "log": log, "route": "py", "maxname": 8 if th else 6}
             out.append(Cond(f"__getattr__[{cname}]", "getattr_ok", mode="A", param=p, timeout=to,
                             witnesses=[["bar", 0], ["__x__", 1], ["_a", 5], ["__ab", 6], ["a__", 2]],
